@@ -81,8 +81,7 @@ Section Arrays.
       + injection Ht as <-. rewrite write_pos_frame by assumption.
         rewrite nth_error_set_nth, Nat.eqb_refl. apply Nat.ltb_lt in Hp0. rewrite Hp0. reflexivity.
       + cbn [nth_error]. apply IH; auto.
-        * rewrite set_nth_length. assumption.
-        * cbn in Hlen. lia.
+        rewrite set_nth_length. assumption.
   Qed.
 
   Lemma pick_cons p ps a x : nth_error a p = Some x -> pick (p :: ps) a = x :: pick ps a.
@@ -172,29 +171,16 @@ Section MapMFacts.
   Lemma mapM_Err l e : mapM f l = Err e <->
     exists pre x post bs, l = pre ++ x :: post /\ Forall2 (fun a b => f a = Ok b) pre bs /\ f x = Err e.
   Proof.
-    induction l as [|a l IH]; cbn.
-    - split; [discriminate|]. intros (pre & x & post & bs & H & _). destruct pre; discriminate.
-    - destruct (f a) as [b|e0] eqn:E; cbn.
-      + destruct (mapM f l) as [bs|e1] eqn:E'; cbn.
-        * split; [discriminate|]. intros (pre & x & post & bs' & H & H1 & H2).
-          destruct pre as [|a' pre]; cbn in H; injection H as -> ->; [rewrite E in H2; discriminate|].
-          inversion H1; subst.
-          assert (Err e = Ok bs :> res (list B)) as Hc; [|discriminate].
-          apply (proj2 IH). eauto 8.
-        * split.
-          -- intros [= ->]. destruct (proj1 IH eq_refl) as (pre & x & post & bs' & -> & H1 & H2).
-             exists (a :: pre), x, post, (b :: bs'). repeat split; auto.
-          -- intros (pre & x & post & bs' & H & H1 & H2).
-             destruct pre as [|a' pre]; cbn in H; injection H as -> ->; [rewrite E in H2; discriminate|].
-             inversion H1; subst. f_equal.
-             assert (Err e1 = Err e :> res (list B)) as Hc; [|injection Hc; auto].
-             apply (proj2 IH). eauto 8.
-      + split.
-        * intros [= ->]. exists [], a, l, []. repeat split; auto.
-        * intros (pre & x & post & bs' & H & H1 & H2).
-          destruct pre as [|a' pre]; cbn in H; injection H as -> ->.
-          -- rewrite E in H2. exact H2.
-          -- inversion H1; subst. congruence.
+    split.
+    - revert e. induction l as [|a l IH]; intros e H; cbn in H; [discriminate|].
+      destruct (f a) as [b|e0] eqn:E; cbn in H.
+      + destruct (mapM f l) as [bs|e1] eqn:E'; cbn in H; [discriminate|]. injection H as ->.
+        destruct (IH _ eq_refl) as (pre & x & post & bs' & -> & H1 & H2).
+        exists (a :: pre), x, post, (b :: bs'). repeat split; auto.
+      + injection H as ->. exists [], a, l, []. repeat split; auto.
+    - intros (pre & x & post & bs & -> & H1 & H2). induction H1 as [|a b pre bs Ha _ IH]; cbn.
+      + rewrite H2. reflexivity.
+      + rewrite Ha. cbn. rewrite IH. reflexivity.
   Qed.
 
   Lemma mapM_ext_in (g : A -> res B) l : (forall a, In a l -> f a = g a) -> mapM f l = mapM g l.
@@ -206,3 +192,205 @@ End MapMFacts.
 
 Lemma mapM_map {A B C} (f : B -> res C) (g : A -> B) l : mapM f (map g l) = mapM (fun a => f (g a)) l.
 Proof. induction l as [|a l IH]; cbn; [reflexivity|]. rewrite IH. reflexivity. Qed.
+
+(* ================================================================================================
+   B. subscripts *)
+Local Ltac dz :=
+  repeat match goal with
+  | |- context [Z.ltb ?a ?b] => destruct (Z.ltb_spec a b)
+  | |- context [Z.leb ?a ?b] => destruct (Z.leb_spec a b)
+  | |- context [Z.eqb ?a ?b] => destruct (Z.eqb_spec a b)
+  | H : context [Z.ltb ?a ?b] |- _ => destruct (Z.ltb_spec a b)
+  | H : context [Z.leb ?a ?b] |- _ => destruct (Z.leb_spec a b)
+  | H : context [Z.eqb ?a ?b] |- _ => destruct (Z.eqb_spec a b)
+  end.
+
+(* an integer subscript raises IndexError exactly outside [-n, n) *)
+Lemma norm_int_Err n i e :
+  norm_int n i = Err e <-> e = EIndex /\ (i < - Z.of_nat n \/ Z.of_nat n <= i)%Z.
+Proof.
+  unfold norm_int. split.
+  - intro H. dz; cbn in H; try discriminate; injection H as <-; split; auto.
+  - intros [-> H]. dz; cbn; try reflexivity; lia.
+Qed.
+
+Lemma norm_int_Ok n i p :
+  norm_int n i = Ok p <->
+  (- Z.of_nat n <= i < Z.of_nat n)%Z /\ Z.of_nat p = (if i <? 0 then i + Z.of_nat n else i)%Z.
+Proof.
+  unfold norm_int. split.
+  - intro H. dz; cbn in H; try discriminate; injection H as <-; split; lia.
+  - intros [H1 H2]. dz; cbn; try lia; f_equal; lia.
+Qed.
+
+Lemma norm_int_lt n i p : norm_int n i = Ok p -> p < n.
+Proof. intro H. apply norm_int_Ok in H. destruct H as [H1 H2]. dz; lia. Qed.
+
+(* a slice raises only for a zero step (ValueError), never IndexError *)
+Lemma slice_indices_Err n s e : slice_indices n s = Err e <-> e = EValue /\ sl_step s = Some 0%Z.
+Proof.
+  unfold slice_indices. destruct (sl_step s) as [k|]; cbn.
+  - destruct (Z.eqb_spec k 0) as [->|Hk].
+    + split; [intros [= <-]; auto | intros [-> _]; reflexivity].
+    + split; [discriminate | intros [_ [= ->]]; contradiction].
+  - split; [discriminate | intros [_ H]; discriminate].
+Qed.
+
+Lemma slice_indices_bounds n s start stop step :
+  (0 <= n)%Z -> slice_indices n s = Ok (start, stop, step) ->
+  (step <> 0 /\
+   (0 < step -> 0 <= start <= n /\ 0 <= stop <= n) /\
+   (step < 0 -> -1 <= start <= n - 1 /\ -1 <= stop <= n - 1))%Z.
+Proof.
+  intros Hn H. unfold slice_indices in H.
+  destruct (Z.eqb_spec (match sl_step s with Some k => k | None => 1 end) 0) as [E|E]; [discriminate|].
+  injection H as <- <- <-.
+  set (st := match sl_step s with Some k => k | None => 1%Z end) in *.
+  split; [exact E|].
+  destruct (sl_start s) as [a|], (sl_stop s) as [b|]; split; intro Hs; dz; lia.
+Qed.
+
+Lemma slice_len_nonneg start stop step : (0 <= slice_len start stop step)%Z.
+Proof.
+  unfold slice_len. dz; try lia.
+  - assert (0 <= (start - stop - 1) / - step)%Z by (apply Z.div_pos; lia). lia.
+  - destruct (Z.eq_dec step 0) as [->|]; [rewrite Zdiv_0_r; lia|].
+    assert (0 <= (stop - start - 1) / step)%Z by (apply Z.div_pos; lia). lia.
+Qed.
+
+Lemma slice_len_pos_bound start stop step j :
+  (0 < step -> 0 <= j < slice_len start stop step -> start <= start + j * step < stop)%Z.
+Proof.
+  intros Hs [Hj0 Hj]. unfold slice_len in Hj. dz; try lia.
+  pose proof (Z.mul_div_le (stop - start - 1) step Hs).
+  assert (step * j <= step * ((stop - start - 1) / step))%Z by (apply Z.mul_le_mono_nonneg_l; lia).
+  nia.
+Qed.
+
+Lemma slice_len_neg_bound start stop step j :
+  (step < 0 -> 0 <= j < slice_len start stop step -> stop < start + j * step <= start)%Z.
+Proof.
+  intros Hs [Hj0 Hj]. unfold slice_len in Hj. dz; try lia.
+  assert (0 < - step)%Z as Hs' by lia.
+  pose proof (Z.mul_div_le (start - stop - 1) (- step) Hs').
+  assert (- step * j <= - step * ((start - stop - 1) / - step))%Z by (apply Z.mul_le_mono_nonneg_l; lia).
+  nia.
+Qed.
+
+Lemma NoDup_map_inj_in {A B} (f : A -> B) l :
+  NoDup l -> (forall x y, In x l -> In y l -> f x = f y -> x = y) -> NoDup (map f l).
+Proof.
+  induction 1 as [|x l Hx Hnd IH]; intro Hinj; cbn; constructor.
+  - intro Hin. apply in_map_iff in Hin. destruct Hin as (y & Hy & Hyl).
+    assert (y = x) by (apply Hinj; [right; assumption | left; reflexivity | assumption]). subst. contradiction.
+  - apply IH. intros; apply Hinj; auto; right; assumption.
+Qed.
+
+(* the positions of a slice are in range and pairwise distinct *)
+Lemma slice_pos_wf n s ps : slice_pos n s = Ok ps -> Forall (fun p => p < n) ps /\ NoDup ps.
+Proof.
+  unfold slice_pos. destruct (slice_indices (Z.of_nat n) s) as [[[start stop] step]|e] eqn:E; cbn; [|discriminate].
+  intros [= <-].
+  destruct (slice_indices_bounds _ _ _ _ _ (Nat2Z.is_nonneg n) E) as (Hs0 & Hpos & Hneg).
+  pose proof (slice_len_nonneg start stop step) as HL.
+  assert (Hrange : forall j, In j (seq 0 (Z.to_nat (slice_len start stop step))) ->
+                             (0 <= start + Z.of_nat j * step < Z.of_nat n)%Z).
+  { intros j Hj. apply in_seq in Hj.
+    assert (0 <= Z.of_nat j < slice_len start stop step)%Z as Hj' by lia.
+    destruct (Z.lt_trichotomy step 0) as [Hlt|[Heq|Hgt]]; [|contradiction|].
+    - pose proof (slice_len_neg_bound start stop step _ Hlt Hj'). specialize (Hneg Hlt). lia.
+    - pose proof (slice_len_pos_bound start stop step _ Hgt Hj'). specialize (Hpos Hgt). lia. }
+  split.
+  - apply Forall_forall. intros p Hp. apply in_map_iff in Hp. destruct Hp as (j & <- & Hj).
+    specialize (Hrange j Hj). lia.
+  - apply NoDup_map_inj_in; [apply seq_NoDup|].
+    intros i j Hi Hj Heq. pose proof (Hrange i Hi). pose proof (Hrange j Hj).
+    assert (start + Z.of_nat i * step = start + Z.of_nat j * step)%Z as Heq' by lia.
+    assert ((Z.of_nat i - Z.of_nat j) * step = 0)%Z as Hm by lia.
+    apply Z.mul_eq_0 in Hm. lia.
+Qed.
+
+Lemma slice_pos_Err n s e : slice_pos n s = Err e <-> e = EValue /\ sl_step s = Some 0%Z.
+Proof.
+  unfold slice_pos. destruct (slice_indices (Z.of_nat n) s) as [[[start stop] step]|e0] eqn:E; cbn.
+  - split; [discriminate|]. intro H. apply slice_indices_Err in H. rewrite H in E. discriminate.
+  - rewrite <- (slice_indices_Err (Z.of_nat n) s e). rewrite E. split; congruence.
+Qed.
+
+(* the meaning of a slice with a positive step: the positions p with start <= p < stop (after clipping to
+   [0, n], negative bounds counted from the end) that are congruent to start modulo the step *)
+Lemma slice_pos_meaning n s start stop step ps :
+  slice_indices (Z.of_nat n) s = Ok (start, stop, step) -> (0 < step)%Z -> slice_pos n s = Ok ps ->
+  forall p, In p ps <-> (start <= Z.of_nat p < stop /\ (Z.of_nat p - start) mod step = 0)%Z.
+Proof.
+  intros E Hs Hps p. unfold slice_pos in Hps. rewrite E in Hps. cbn in Hps. injection Hps as <-.
+  destruct (slice_indices_bounds _ _ _ _ _ (Nat2Z.is_nonneg n) E) as (_ & Hpos & _). specialize (Hpos Hs).
+  pose proof (slice_len_nonneg start stop step) as HL.
+  rewrite in_map_iff. split.
+  - intros (j & <- & Hj). apply in_seq in Hj.
+    assert (0 <= Z.of_nat j < slice_len start stop step)%Z as Hj' by lia.
+    pose proof (slice_len_pos_bound start stop step _ Hs Hj').
+    rewrite Z2Nat.id by lia. split; [lia|].
+    replace (start + Z.of_nat j * step - start)%Z with (Z.of_nat j * step)%Z by lia. apply Z.mod_mul. lia.
+  - intros [Hr Hm].
+    assert (Z.of_nat p - start = step * ((Z.of_nat p - start) / step))%Z as Hd
+      by (apply Z_div_exact_full_2; lia).
+    set (q := ((Z.of_nat p - start) / step)%Z) in *.
+    assert (0 <= q)%Z by (apply Z.div_pos; lia).
+    assert (q < slice_len start stop step)%Z.
+    { unfold slice_len. dz; try lia.
+      assert (q <= (stop - start - 1) / step)%Z by (apply Z.div_le_lower_bound; lia). lia. }
+    exists (Z.to_nat q). split.
+    + rewrite Z2Nat.id by lia. lia.
+    + apply in_seq. lia.
+Qed.
+
+(* X[:] addresses every position, in order *)
+Lemma slice_pos_full n : slice_pos n (mkSlice None None None) = Ok (seq 0 n).
+Proof.
+  unfold slice_pos, slice_indices, slice_len. cbn -[Z.div Z.of_nat Z.to_nat Z.mul Z.add].
+  f_equal.
+  assert (Z.to_nat (if (0 <? Z.of_nat n)%Z then (Z.of_nat n - 0 - 1) / 1 + 1 else 0)%Z = n) as ->.
+  { rewrite Z.div_1_r. dz; lia. }
+  rewrite <- (map_id (seq 0 n)) at 2. apply map_ext. intro j. lia.
+Qed.
+
+(* what a subscript tuple addresses on one axis *)
+Definition addr_wf (n : nat) (ad : addr) : Prop :=
+  match ad with AOne p => p < n | AMany ps => Forall (fun p => p < n) ps /\ NoDup ps end.
+
+Lemma addr_of_wf n ix ad : addr_of n ix = Ok ad -> addr_wf n ad.
+Proof.
+  destruct ix as [|[i|s] [|? ?]]; cbn; try discriminate.
+  - intros [= <-]. split; [apply seq_in_range | apply seq_NoDup].
+  - destruct (norm_int n i) eqn:E; cbn; [|discriminate]. intros [= <-]. eapply norm_int_lt; eassumption.
+  - destruct (slice_pos n s) eqn:E; cbn; [|discriminate]. intros [= <-]. eapply slice_pos_wf; eassumption.
+Qed.
+
+(* which subscripts raise, and what: IndexError exactly for an integer outside [-n, n) and for two or more
+   subscripts on one axis; ValueError exactly for a zero slice step; nothing else raises *)
+Lemma addr_of_Err n ix e :
+  addr_of n ix = Err e <->
+  (exists i, ix = [IInt i] /\ e = EIndex /\ (i < - Z.of_nat n \/ Z.of_nat n <= i)%Z) \/
+  (exists s, ix = [ISlice s] /\ e = EValue /\ sl_step s = Some 0%Z) \/
+  (2 <= length ix /\ e = EIndex).
+Proof.
+  destruct ix as [|[i|s] [|j ix']]; cbn.
+  - split; [discriminate|]. intros [(? & ? & _)|[(? & ? & _)|[? _]]]; try discriminate; lia.
+  - destruct (norm_int n i) as [p|e0] eqn:E; cbn.
+    + split; [discriminate|]. intros [(i' & [= <-] & -> & H)|[(? & ? & _)|[? _]]]; try discriminate; try lia.
+      assert (norm_int n i = Err EIndex) by (apply norm_int_Err; auto). congruence.
+    + apply norm_int_Err in E. destruct E as [-> E]. split.
+      * intros [= <-]. left. eauto.
+      * intros [(i' & [= <-] & -> & H)|[(? & ? & _)|[? _]]]; try discriminate; try lia. reflexivity.
+  - split; [intros [= <-]; right; right; split; [lia | reflexivity]|].
+    intros [(? & ? & _)|[(? & ? & _)|[_ ->]]]; try discriminate. reflexivity.
+  - destruct (slice_pos n s) as [ps|e0] eqn:E; cbn.
+    + split; [discriminate|]. intros [(? & ? & _)|[(s' & [= <-] & -> & H)|[? _]]]; try discriminate; try lia.
+      assert (slice_pos n s = Err EValue) by (apply slice_pos_Err; auto). congruence.
+    + apply slice_pos_Err in E. destruct E as [-> E]. split.
+      * intros [= <-]. right; left. eauto.
+      * intros [(? & ? & _)|[(s' & [= <-] & -> & H)|[? _]]]; try discriminate; try lia. reflexivity.
+  - split; [intros [= <-]; right; right; split; [lia | reflexivity]|].
+    intros [(? & ? & _)|[(? & ? & _)|[_ ->]]]; try discriminate. reflexivity.
+Qed.
